@@ -1,3 +1,4 @@
+CONSTANT Wrong = FALSE
 SPECIFICATION SpecThorough
 INVARIANT RoundTrip
 INVARIANT ConsumesWholePdu
